@@ -38,7 +38,8 @@ RULE = ("Two-body states generated from elements: e in [0,1-1e-6] u [1+1e-6,50],
         "dt/P in +-[1e-8,1e3] log-uniform with extra mass on |dt|>P; entry points reb_whfast_kepler_solver "
         "(ctypes) and one reb_simulation_step of WHFast x4 coordinate systems, SABA1, MERCURIUS, TRACE (planet "
         "massless, or massive for Jacobi/WHDS/SABA) and WHFast512 (avx512 build, dt>0, planet in any of the 8 "
-        "lanes).  Oracle: mpmath 60-digit propagation through classical/hyperbolic elements and a verified "
+        "lanes), and 2-3 WHFast-Jacobi steps over safe_mode x keep_unsynchronized x variational particles / MEGNO "
+        "with a final synchronize.  Oracle: mpmath 60-digit propagation through classical/hyperbolic elements and a verified "
         "bracketed Kepler solve.  Tolerance K*(delta_cond + eps*|x|), K=128 for |dt|<=P and 1024 for |dt|>P, "
         "delta_cond = oracle output change under 2eps relative perturbation of each input; DKD schemes: the "
         "allowance of the first half step is carried through the second by the oracle.  Every call runs in a "
@@ -68,7 +69,9 @@ CLASSES = ["direct/elliptic", "direct/hyperbolic", "direct/dt>P", "direct/dt>100
                                             "whfast:barycentric", "saba", "mercurius", "trace")] + \
           ["step/massive_planet", "step/loose_tolerance", "step/prelude"] + ["step/prelude:" + k for k in PRELUDE_NAMES] + \
           [ "step512/whfast512:asserted", "step512/padded",
-           "step512/known_region", "step512/known_padding_region"] + ["step512/lane%d" % i for i in range(8)]
+           "step512/known_region", "step512/known_padding_region"] + ["step512/lane%d" % i for i in range(8)] + \
+          ["multistep/asserted", "multistep/unsynchronized+variations", "multistep/var:none", "multistep/var:variation",
+           "multistep/var:megno", "multistep/safe_mode0", "multistep/safe_mode1", "multistep/keep_unsynchronized1"]
 VARIANTS = ["avx512"]
 
 # ---------------------------------------------------------------------------------------------------------
@@ -707,6 +710,153 @@ def run_step(c, ctx):
             ctx.nontrivial()
 
 
+# ---------------------------------------------------------------------------------------------------------
+# entry point 3: several WHFast steps (Jacobi coordinates, default kernel) with the documented option lattice
+# safe_mode x keep_unsynchronized x variational particles / MEGNO, final synchronize
+
+multi_case = st.fixed_dictionaries({
+    "orbit": orbit,
+    "G": st.sampled_from(G_CHOICES),
+    "qm": st.one_of(st.just(0.0), S.logfloats(1e-9, 1.0)),
+    "m": st.sampled_from([2, 2, 3]),
+    "safe_mode": st.sampled_from([0, 0, 1]),
+    "keep": st.sampled_from([1, 1, 0]),           # keep_unsynchronized (only valid with safe_mode=0)
+    "var": st.sampled_from(["none", "variation", "variation", "megno"]),
+})
+
+
+def _multi_call(a):
+    import warnings
+    import rebound
+    warnings.simplefilter("ignore")
+    sim = rebound.Simulation()
+    sim.G = a["G"]
+    for p in a["particles"]:
+        sim.add(m=p[6], x=p[0], y=p[1], z=p[2], vx=p[3], vy=p[4], vz=p[5])
+    sim.integrator = "whfast"
+    sim.ri_whfast.coordinates = "jacobi"
+    sim.ri_whfast.safe_mode = a["safe_mode"]
+    sim.ri_whfast.keep_unsynchronized = a["keep"]
+    if a["var"] == "variation":
+        v = sim.add_variation()
+        v.particles[1].x = 1.0
+    elif a["var"] == "megno":
+        sim.init_megno(seed=3)
+    sim.dt = a["dt"]
+    sim.steps(a["m"])
+    sim.synchronize()
+    out = []
+    for i in range(2):
+        p = sim.particles[i]
+        out.append((p.x, p.y, p.z, p.vx, p.vy, p.vz))
+    return out, sim.t
+
+
+def chain_allowance(KM, rel_r, rel_v, mum, pieces, K):
+    """Allowed error after a sequence of Kepler sub-steps, each exact to K*(delta_cond + eps|x|): the allowance
+    accumulated so far is carried through the next piece by the oracle's own error propagation."""
+    n3 = lambda v: math.sqrt(sum(float(x) ** 2 for x in v))
+    r, v = list(rel_r), list(rel_v)
+    ep = ev = 0.0
+    xs = vs = 0.0
+    for j, h in enumerate(pieces):
+        rin = r if j == 0 else [float(x) for x in r]
+        vin = v if j == 0 else [float(x) for x in v]
+        r2, v2, dp, dv = KM.propagate_cond(rin, vin, mum, h)
+        sp = sv = 0.0
+        if ep > 0.0 or ev > 0.0:
+            sp, sv = KM.propagate_sens(rin, vin, mum, h, ep, ev)
+        xs, vs = max(n3(rin), n3(r2)), max(n3(vin), n3(v2))
+        ep = K * (dp + EPS * xs) + sp
+        ev = K * (dv + EPS * vs) + sv
+        r, v = r2, v2
+    return ep, ev
+
+
+def run_multi(c, ctx):
+    import mpmath
+    from mpmath import mpf
+    from ..oracles import c03_kepler_mp as KM
+    o = c["orbit"]
+    r0, v0, mu, dt, e, f = realise(o)
+    G = c["G"]
+    qm = c["qm"]
+    m0 = mu / G / (1.0 + qm)
+    m1 = qm * m0
+    if not (1e-300 < m0 < 1e300):
+        ctx.skip("mass out of double range")
+        return
+    m = c["m"]
+    sm = c["safe_mode"]
+    keep = c["keep"] if sm == 0 else 0
+    nt = classify(o, e, f, ctx)
+    ctx.cls("safe_mode%d" % sm)
+    ctx.cls("keep_unsynchronized%d" % keep)
+    ctx.cls("var:" + c["var"])
+    if sm == 0 and keep == 1 and c["var"] != "none":
+        ctx.cls("unsynchronized+variations")
+    if m1 > 0:
+        M = m0 + m1
+        star = [-(m1 / M) * x for x in r0] + [-(m1 / M) * x for x in v0] + [m0]
+        plan = [(m0 / M) * x for x in r0] + [(m0 / M) * x for x in v0] + [m1]
+    else:
+        star = [0.0] * 6 + [m0]
+        plan = list(r0) + list(v0) + [0.0]
+    arg = {"G": G, "particles": [star, plan], "safe_mode": sm, "keep": keep, "var": c["var"], "dt": dt, "m": m}
+    w = worker("multi", _multi_call)
+    status, val = w.call(arg)
+    what = "%d WHFast steps (safe_mode=%d keep_unsynchronized=%d %s)" % (m, sm, keep, c["var"])
+    if status != "ok":
+        return not_returned(ctx, o, status, val, what, arg=arg)
+    out, t1 = val
+    s1, p1 = out
+    if not (finite6(s1) and finite6(p1)):
+        raise Violation("%s yield non-finite coordinates%s" % (
+            what, " [inside the known-finding region]" if in_known_region(o) else ""),
+            out=[[repr(x) for x in b] for b in out], arg=arg)
+    if abs(t1 - m * dt) > 8 * EPS * abs(m * dt):
+        raise Violation("%s with dt=%r end at t=%r" % (what, dt, t1), arg=arg)
+    old = mpmath.mp.dps
+    mpmath.mp.dps = KM.DPS
+    try:
+        mm0, mm1, mG = mpf(m0), mpf(m1), mpf(G)
+        mM = mm0 + mm1
+        mum = mG * mM
+        rel_r = [mpf(plan[k]) - mpf(star[k]) for k in range(3)]
+        rel_v = [mpf(plan[3 + k]) - mpf(star[3 + k]) for k in range(3)]
+        com_r = [(mm0 * mpf(star[k]) + mm1 * mpf(plan[k])) / mM for k in range(3)]
+        com_v = [(mm0 * mpf(star[3 + k]) + mm1 * mpf(plan[3 + k])) / mM for k in range(3)]
+        mdt = mpf(dt)
+        # documented structure: safe_mode=1: (D/2 K D/2) per step; safe_mode=0: D/2 K (D K)^(m-1) D/2
+        pieces = [mdt / 2, mdt / 2] * m if sm == 1 else [mdt / 2] + [mdt] * (m - 1) + [mdt / 2]
+        K = k_of(o["dtP"])
+        tpos, tvel = chain_allowance(KM, rel_r, rel_v, mum, pieces, K)
+        refr, refv = KM.propagate(rel_r, rel_v, mum, mdt * m)
+        T = mdt * m
+        com1 = [com_r[k] + com_v[k] * T for k in range(3)]
+        ref_p = [com1[k] + (mm0 / mM) * refr[k] for k in range(3)], [com_v[k] + (mm0 / mM) * refv[k] for k in range(3)]
+        ref_s = [com1[k] - (mm1 / mM) * refr[k] for k in range(3)], [com_v[k] - (mm1 / mM) * refv[k] for k in range(3)]
+        fp, fs = float(mm0 / mM), float(mm1 / mM)
+    finally:
+        mpmath.mp.dps = old
+    n3 = lambda v: math.sqrt(sum(float(x) ** 2 for x in v))
+    if m1 > 0:
+        xi = max(n3(star[0:3]), n3(plan[0:3]), n3(s1[0:3]), n3(p1[0:3])) + max(n3(star[3:6]), n3(plan[3:6])) * abs(m * dt)
+        vi = max(n3(star[3:6]), n3(plan[3:6]), n3(s1[3:6]), n3(p1[3:6]))
+        bodies = [("planet", p1, ref_p[0], ref_p[1], fp * tpos + m * K * EPS * xi, fp * tvel + m * K * EPS * vi),
+                  ("star", s1, ref_s[0], ref_s[1], fs * tpos + m * K * EPS * xi, fs * tvel + m * K * EPS * vi)]
+    else:
+        if any(x != 0.0 for x in s1):
+            raise Violation("%s with a massless planet moved the star, initially at rest at the origin" % what,
+                            star=list(s1), arg=arg)
+        bodies = [("planet", p1, ref_p[0], ref_p[1], tpos, tvel)]
+    res = judge(ctx, o, bodies, what, extra=dict(arg=arg, nominal_e=e))
+    if res == "asserted":
+        ctx.cls("asserted")
+        if nt:
+            ctx.nontrivial()
+
+
 def rb_dbits(x):
     return struct.unpack("<Q", struct.pack("<d", x))[0]
 
@@ -725,6 +875,7 @@ def subs(tier):
             shards_thorough=16),
         Sub("step", run_step, strategy=step_case([k for k in SCHEMES if k != "whfast512"], G_CHOICES),
             quick=1200, thorough=40000, shards_quick=8, shards_thorough=16),
+        Sub("multistep", run_multi, strategy=multi_case, quick=320, thorough=8000, shards_quick=8, shards_thorough=16),
         Sub("step512", run_step, strategy=step_case(["whfast512"], [1.0], w512=True), variant="avx512",
             quick=640, thorough=16000, shards_quick=4, shards_thorough=8),
     ]
